@@ -1,6 +1,7 @@
 import Jrpc.Oracle.Util
 import Jrpc.Oracle.C14
 import Jrpc.Oracle.C17
+import Jrpc.Oracle.C12
 /-! The model oracle: one line in, one line out. First token selects the sub-command. -/
 open Jrpc.Oracle
 
@@ -9,6 +10,8 @@ def dispatch (line : String) : String :=
   | "c14" :: r => C14.handle r
   | "c17" :: r => C17.handle r
   | "c17n" :: r => C17.handleNames r
+  | "c12" :: r => C12.handle r
+  | "c11s" :: r => C12.handleSend r
   | _ => "bad-op"
 
 partial def loop (h : IO.FS.Stream) (out : IO.FS.Stream) : IO Unit := do
